@@ -117,13 +117,19 @@ def run(ctx):
     consts = cl.gen_consts(ctx.tier, ctx.seed)
     consts["Emit"] = "FALSE"
     cl.model_check(ctx, "DnsWireGen.tla", "c04_codec_mc", consts,
-                   ["RoundTrip", "Total", "PresRoundTrip", "WriterSound"], timeout=1200)
+                   ["RoundTrip", "Total", "PresRoundTrip", "WriterSound", "SizeLimit", "FlagsSound"], timeout=1200)
+    # ... and on the large messages: offsets around 16384, and the message-size limit (65534 / 65535 / 65536 octets)
+    cb = cl.gen_consts(ctx.tier, ctx.seed, fams=["big"], muts=[], flags=(0,), stride=1, combo=1)
+    cb["Emit"] = "FALSE"
+    cl.model_check(ctx, "DnsWireGen.tla", "c04_big_mc", cb, ["RoundTrip", "Total", "SizeLimit", "EdgeExact"], timeout=900)
 
-    # 2. spec -> impl
-    vecs = cl.main_vectors(ctx)
-    flags = sorted({d["fl"] for d in vecs[0]["dec"]})
-    hv = [{"id": v["id"], "op": "parse", "hex": cl.hx(v["nb"]), "flags": flags, "wb": [], "names": 0, "legacy": 0}
-          for v in vecs]
+    # 2. spec -> impl: every vector with the parse-flag values for which TLC printed the reference's reading
+    # (all vectors: no flags / all RAW; unmutated vectors of the flag families: all 64 combinations)
+    main = cl.main_vectors(ctx)
+    vecs = main + cl.big_vectors(ctx)
+    flags = sorted({d["fl"] for d in main[0]["dec"]})
+    hv = [{"id": v["id"], "op": "parse", "hex": cl.hx(v["nb"]), "flags": sorted({d["fl"] for d in v["dec"]}), "wb": [],
+           "names": 0, "legacy": 0} for v in vecs]
     res, _ = cl.run_harness(ctx, exe, "c04_parse", hv, timeout=1200)
     for vid, sig, text in cl.confirmed_safety(ctx, exe, hv, res):
         ctx.violation("c04." + sig, text, replay_content=_replay(vecs, vid))
@@ -178,8 +184,11 @@ def run(ctx):
                     nontrivial.add(cl.hx(v["nb"]) + str(d["fl"]))
     ctx.cov["distinct_nontrivial"] = len(nontrivial)
     ctx.notes["verdicts_flags0"] = stats
-    ctx.notes["parse_flag_values_compared"] = flags
-    ctx.log("spec->impl: %d vectors x flags %s; %s" % (len(vecs), flags, stats))
+    nall = sum(1 for v in vecs if len(v["dec"]) == len(cl.ALL_FLAGS))
+    ctx.notes["parse_flag_values_compared"] = {"every_vector": flags, "all_64_combinations_on_unmutated_vectors": nall}
+    ctx.notes["message_lengths_at_the_size_limit"] = sorted({len(v["nb"]) for v in vecs if len(v["nb"]) >= 65534})
+    ctx.log("spec->impl: %d vectors x flags %s, %d of them x all 64 flag combinations; %s" %
+            (len(vecs), flags, nall, stats))
 
     # 3. impl -> spec: names reported by the implementation, un-escaped by the reference
     events = []
@@ -305,7 +314,9 @@ def run(ctx):
         "field value domains are small symbolic sets plus boundary values, not all 2^16/2^32 values",
         "supported subset (accept demand): one question, opcodes 0/1/2/4/5, classes IN/CH/HS/NONE(+ANY for questions, SIG), "
         "printable character-strings in HINFO/NAPTR/CAA/URI, non-empty SIG signature / TLSA data / CAA value",
-        "parse flags compared: %s (RAW = RDATA uninterpreted); other flag combinations are only run for safety in C02" % flags,
+        "parse flags compared: %s on every vector (RAW = RDATA uninterpreted) and all 64 combinations of the six "
+        "ARES_DNS_PARSE_*_RAW bits on %d unmutated vectors (DnsWireGen!FlagsSound states what the bits mean); on mutated "
+        "vectors the other combinations are only run for safety in C02" % (flags, nall),
         "the mapping reference field <-> c-ares key id (codeclib.BIND) is trusted plumbing",
     ]
 
